@@ -30,7 +30,9 @@ func NewIndividualPage(document *gedcom.Document, individual *gedcom.IndividualN
 }
 
 func (c *IndividualPage) WriteHTMLTo(w io.Writer) (int64, error) {
-	name := c.individual.Names()[0]
+	// Name() is nil when the individual does not have a name, which is fine
+	// for String().
+	name := c.individual.Name()
 
 	individualName := NewIndividualName(c.individual, c.options.LivingVisibility,
 		UnknownEmphasis)
